@@ -97,6 +97,10 @@ type simpleRequest struct {
 	resp       *RespValue
 	hooks      []func(*simpleRequest)
 	done       chan struct{}
+	// abort, when not nil, makes a Send that waits for room in a backend
+	// connection's queue give up: it is the quit latch of whoever is sending
+	// (the backend connection that follows a redirection, the slot refresher).
+	abort <-chan struct{}
 }
 
 func newSimpleRequest(v *RespValue) *simpleRequest {
